@@ -55,7 +55,6 @@ func main() {
 		fmt.Fprintln(os.Stderr, "usage: harness run|worker|replay ...")
 		os.Exit(2)
 	}
-	simrt.SnapshotGlobals()
 	switch os.Args[1] {
 	case "run":
 		os.Exit(driver(os.Args[2:]))
@@ -115,6 +114,16 @@ func workerMain(args []string) int {
 	w := &Worker{Prop: f.prop, Tier: f.tier, Seed: f.seed, W: f.w, N: f.n, St: newStats(f.prop), hashes: map[uint64]struct{}{},
 		seenClass: map[string]*Violation{}, Deadline: time.Now().Add(tp.Budget), MaxCases: tp.Cases, inv: loadInventory(f.inv), K: tp.K}
 	loadVarIDs(w.inv)
+	prepareRuntime(w.inv)
+	if f.prop == "C19" && simrt.RealGo {
+		// lane A cannot own a library that blocks on channels / select / Cond / timers: no cases
+		if f.w == 0 {
+			w.St.Errors = append(w.St.Errors, "lane A skipped: the library uses blocking constructs the simulator does not own (see unsimulated_blocking_constructs); C19 verdict from lane B (runtime monitoring) only")
+		}
+		tp.Cases, tp.Budget = 0, 0
+		w.MaxCases = 0
+		w.Deadline = time.Now()
+	}
 	if vl, err := os.Create(filepath.Join(f.scratch, fmt.Sprintf("viol.%s.%d.jsonl", f.prop, f.w))); err == nil {
 		w.violLog = vl
 		defer vl.Close()
@@ -150,7 +159,7 @@ func workerMain(args []string) int {
 			break
 		}
 		if time.Now().After(w.Deadline) {
-			if tp.Cases > 0 {
+			if tp.Cases > 0 && !(f.prop == "C19" && simrt.RealGo) {
 				w.St.Errors = append(w.St.Errors, fmt.Sprintf("budget reached at case %d of %d", idx, tp.Cases))
 			}
 			break
@@ -380,6 +389,13 @@ func driver(args []string) int {
 	for _, e := range tot.Errors {
 		fmt.Println("note:", e)
 	}
+	// vacuity: cases in which the library panicked are compared on panic-ness only
+	if np := tot.Probes["reference_panicked"] + tot.Probes["panic"]; tot.Cases > 0 && np*50 > tot.Cases {
+		fmt.Printf("note: the library panicked in %d of %d generated cases (valid inputs by construction); those cases are compared on panic-ness only, so this run says little about them\n", np, tot.Cases)
+	}
+	if simrt.RestoreDisabled != "" {
+		fmt.Println("note: package state is not reset between cases:", simrt.RestoreDisabled)
+	}
 	if laneBUnreproduced && exit == 0 {
 		fmt.Println("ERROR: a lane-B race report did not reproduce and nothing else was confirmed: no verdict")
 		exit = 2
@@ -472,6 +488,7 @@ func replayMain(args []string) int {
 	quiet := fs.Bool("quiet", false, "no VIOLATION line (used by the driver's own confirmation)")
 	fs.Parse(args)
 	loadVarIDs(loadInventory(*inv))
+	prepareRuntime(loadInventory(*inv))
 	b, err := os.ReadFile(*file)
 	if err != nil {
 		fmt.Println("ERROR:", err)
@@ -510,4 +527,16 @@ func replayMain(args []string) int {
 	}
 	fmt.Printf("replay of %s: property holds on this tree (%s)\n", *file, detail)
 	return 0
+}
+
+// prepareRuntime tells the runtime which packages are the library's own, whether the library
+// uses blocking constructs the simulator does not own, and takes the package-state snapshot.
+func prepareRuntime(inv *Inventory) {
+	if inv != nil {
+		for _, p := range inv.Packages {
+			simrt.OwnedPackages[p] = true
+		}
+		simrt.RealGo = len(inv.Unsim) > 0
+	}
+	simrt.SnapshotGlobals()
 }
